@@ -38,6 +38,10 @@ class WA:
         g.wa_snap_how.argtypes = [ctypes.c_int]
         g.wa_snap_data.restype = ctypes.c_void_p
         g.wa_snap_data.argtypes = [ctypes.c_int]
+        g.wa_live_size.restype = ctypes.c_size_t
+        g.wa_live_size.argtypes = [ctypes.c_int]
+        g.wa_live_data.restype = ctypes.c_void_p
+        g.wa_live_data.argtypes = [ctypes.c_int]
         # text range of libbee2.so
         lo, hi = None, None
         for line in open("/proc/self/maps"):
@@ -60,8 +64,13 @@ class WA:
         for i in range(g.wa_nsnaps()):
             n = g.wa_snap_size(i)
             snaps.append((g.wa_snap_how(i), ctypes.string_at(g.wa_snap_data(i), n) if n else b""))
+        # blocks the call obtained and did not release (how = 2): inspected like released ones
+        leaked = []
+        for i in range(g.wa_live()):
+            n = g.wa_live_size(i)
+            leaked.append((2, ctypes.string_at(g.wa_live_data(i), n) if n else b""))
         info = {"nalloc": g.wa_nalloc(), "nfree": g.wa_nfree(), "failed": g.wa_failed(), "live": g.wa_live(),
-                "live_bytes": g.wa_live_bytes(), "overflow": g.wa_overflow(), "snaps": snaps}
+                "live_bytes": g.wa_live_bytes(), "overflow": g.wa_overflow(), "snaps": snaps, "leaked": leaked}
         g.wa_release_leaked()
         return ret, info
 
